@@ -172,6 +172,10 @@ func RoutePatternMatch(path, pattern string, cfg ...Config) bool {
 	parser.reset()
 	parser.parseRoute(string(patternPretty))
 	defer routerParserPool.Put(parser)
+	if !config.CaseSensitive {
+		rawParser := parseRoute(pattern)
+		useRawConstraints(parser, &rawParser)
+	}
 
 	if string(patternPretty) == "/" && path == "/" {
 		return true
